@@ -266,6 +266,11 @@ class Machine:
             while not p.eat(']'):
                 ety = p.type(); out.append(s.const(p, ety, env)); p.eat(',')
             return out
+        if rty.k == 'vec':
+            p.expect('<'); out = []
+            while not p.eat('>'):
+                ety = p.type(); out.append(s.const(p, ety, env)); p.eat(',')
+            return out
         if rty.k == 'struct':
             close = '}' if p.next() == '{' else '}>'
             out = []
@@ -411,7 +416,10 @@ def run(m, fname, args, depth=0):
             val = None
             while True:
                 p.expect('['); start = p.i
-                while p.peek() != ',': p.next()
+                depth_ = 0
+                while not (p.peek() == ',' and depth_ == 0):
+                    x_ = p.next()
+                    depth_ += (x_ in ('{', '[', '<', '(', '<{')) - (x_ in ('}', ']', '>', ')', '}>'))
                 end = p.i; p.expect(','); lb = p.next(); p.expect(']')
                 if lb == prev: val = m.const(P(t[start:end], m.mod), ty, env)
                 if not p.eat(','): break
@@ -493,6 +501,20 @@ def run(m, fname, args, depth=0):
             if op == 'insertvalue':
                 aty = p.type(); agg = m.const(p, aty, env); p.expect(','); ety = p.type(); v = m.const(p, ety, env); p.expect(','); i = int(p.next())
                 agg = list(agg); agg[i] = v; env[dst] = agg; continue
+            if op == 'extractelement':
+                vty = p.type(); vec = m.const(p, vty, env); p.expect(','); ity = p.type(); i = m.const(p, ity, env)
+                if not isinstance(i, int): raise EngineLimit('symbolic vector index')
+                env[dst] = vec[i]; continue
+            if op == 'insertelement':
+                vty = p.type(); vec = m.const(p, vty, env); p.expect(','); ety = p.type(); v = m.const(p, ety, env); p.expect(','); ity = p.type(); i = m.const(p, ity, env)
+                if not isinstance(i, int): raise EngineLimit('symbolic vector index')
+                vec = list(vec); vec[i] = v; env[dst] = vec; continue
+            if op == 'shufflevector':
+                vty = p.type(); a = m.const(p, vty, env); p.expect(','); p.type(); b = m.const(p, vty, env); p.expect(','); mty = p.type()
+                mask_ = m.const(p, mty, env); both = list(a) + list(b)
+                env[dst] = [both[i] if isinstance(i, int) and i < len(both) else 0 for i in mask_]; continue
+            if op == 'freeze':
+                ty = p.type(); env[dst] = m.const(p, ty, env); continue
             if op == 'extractvalue':
                 aty = p.type(); agg = m.const(p, aty, env); p.expect(','); i = int(p.next()); env[dst] = agg[i]; continue
             if op in ('call', 'invoke', 'tail', 'musttail', 'notail'):
